@@ -1,8 +1,8 @@
 (* C06 -- partially reliable channels drop only whole messages and never disturb others.
-   Property theorems only; proofs in Proof/SctpC01P.v, SctpSendP.v, SctpPrP.v, SctpTxP.v. *)
+   Property theorems only; proofs in Proof/SctpC01P.v, SctpSendP.v, SctpPrP.v, SctpTxP.v, SctpFwdFrameP.v. *)
 From Coq Require Import ZArith List Bool.
 From AV Require Import Lib.Bytes Gen.Utils Gen.SctpConst Model.SctpRecv Model.SctpSend Model.SctpTx
-  Proof.SctpRecvP Proof.SctpC01P Proof.SctpSendP Proof.SctpTxP Proof.SctpPrP.
+  Proof.SctpRecvP Proof.SctpC01P Proof.SctpSendP Proof.SctpTxP Proof.SctpPrP Proof.SctpFwdFrameP.
 Import ListNotations.
 Local Open Scope Z_scope.
 
@@ -67,6 +67,24 @@ Print Assumptions C06_abandoned_never_sent.
 Theorem C06_sender_not_blocked : forall s i, inv s -> wf_input i -> inv (fst (step s i)).
 Proof. exact step_inv. Qed.
 Print Assumptions C06_sender_not_blocked.
+
+(* 5. Non-interference at the receiver.  Processing ANY FORWARD-TSN (any cumulative TSN, any
+   stream list) in ANY receiver state leaves every stream it does not name alone except for
+   pruning: the expected stream sequence number is unchanged, nothing of that stream is
+   delivered, and its reassembly queue afterwards is either identical or the old queue minus a
+   prefix of chunks whose TSNs are at or below the FORWARD-TSN's own cumulative TSN -- chunks
+   the sender has declared abandoned or knows to be acknowledged.  A queue whose chunks all
+   lie beyond that TSN is untouched.  (The defect repaired in /repo -- pruning up to the
+   consolidated cumulative TSN -- is exactly a violation of the last clause.) *)
+Theorem C06_forward_tsn_other_streams : forall s cum strs id, ~ named strs id ->
+  let s' := fst (receive_forward_tsn s cum strs) in
+  let st := get_stream (streams s) id in
+  let st' := get_stream (streams s') id in
+  sseq_expected st' = sseq_expected st /\
+  (reasm st' = reasm st \/ reasm st' = fst (prune_chunks (reasm st) cum)) /\
+  (forall x, In x (reasm st) -> ~ In x (reasm st') -> uint32_gte cum (tsn x) = true).
+Proof. exact forward_tsn_other_streams. Qed.
+Print Assumptions C06_forward_tsn_other_streams.
 
 (* PARTIAL.  Non-interference ("abandoning on channel A never loses / reorders / blocks
    channel B") and recovery ("messages sent after the network heals are delivered")
